@@ -273,8 +273,11 @@ def monitor_moasha(spec, t):
         pts = [[F(v) for v in e[1]] for e in rec0] + [[F(v) for v in signed]]
         n = len(pts)
         calls = ev["prio_calls"]
-        if len(calls) != 1 or len(calls[0][1]) != n:
-            out.append({"signature": "c19:priority-not-consulted", "what": f"priority called {len(calls)} times", "detail": ev})
+        if len(calls) != 1:
+            out.append({"signature": "c19:priority-not-consulted", "what": f"priority called {len(calls)} times for one rung decision", "detail": ev})
+            continue
+        if len(calls[0][1]) != n:
+            out.append({"signature": "c19:priority-not-position", "what": f"{len(calls[0][1])} priorities returned for {n} rung entries", "detail": ev})
             continue
         p = calls[0][1]
         count = sum(1 for v in p[:-1] if v < p[-1])
